@@ -212,6 +212,13 @@ class DISPENSO_CACHELINE_ALIGNED ThreadPool {
    **/
   DISPENSO_DLL_ACCESS ~ThreadPool();
 
+#if defined(DISPENSO_VERIF_SIM)
+  // Verification hook (off by default): exact view of the pending-work counter.
+  ssize_t verifWorkRemaining() const {
+    return workRemaining_.load(std::memory_order_relaxed);
+  }
+#endif // DISPENSO_VERIF_SIM
+
  private:
   class PerThreadData {
    public:
